@@ -361,7 +361,10 @@ def gen_mod_spec(rng: random.Random, allow: Optional[List[str]] = None) -> dict:
     if scheme == "pi4qpsk":
         return {"scheme": scheme, "gray": rng.random() < 0.5}
     if scheme == "dpsk":
-        return {"scheme": scheme, "order": rng.choice([2, 4, 8, 16]), "gray": rng.random() < 0.5, "via": rng.choice(["order", "class"])}
+        spec = {"scheme": scheme, "order": rng.choice([2, 4, 8, 16]), "gray": rng.random() < 0.5, "via": rng.choice(["order", "class"])}
+        if spec["via"] == "class" and spec["order"] in (2, 4):
+            spec["gray"] = spec["order"] == 4  # DBPSK is binary-labelled, DQPSK Gray-labelled by definition of the classes
+        return spec
     if scheme == "oqpsk":
         return {"scheme": scheme, "normalize": rng.random() < 0.6}
     return {"scheme": "identity"}
@@ -408,9 +411,9 @@ def build_modem(spec: dict, via_registry: bool = False):
             return M.Pi4QPSKModulator(gray_coded=spec["gray"]), M.Pi4QPSKDemodulator(**dkw)
         if s == "dpsk":
             if spec.get("via") == "class" and spec["order"] == 2:
-                return M.DBPSKModulator(gray_coding=spec["gray"]) if False else M.DBPSKModulator(), M.DBPSKDemodulator()
+                return (R.create("dbpsk", "modulator"), R.create("dbpsk", "demodulator")) if via_registry else (M.DBPSKModulator(), M.DBPSKDemodulator())
             if spec.get("via") == "class" and spec["order"] == 4:
-                return M.DQPSKModulator(gray_coding=spec["gray"]), M.DQPSKDemodulator(gray_coding=spec["gray"])
+                return (R.create("dqpsk", "modulator"), R.create("dqpsk", "demodulator")) if via_registry else (M.DQPSKModulator(), M.DQPSKDemodulator())
             if via_registry:
                 return R.create("dpskmodulator", "modulator", order=spec["order"], gray_coding=spec["gray"]), R.create("dpskdemodulator", "demodulator", order=spec["order"], gray_coding=spec["gray"])
             return M.DPSKModulator(order=spec["order"], gray_coding=spec["gray"]), M.DPSKDemodulator(order=spec["order"], gray_coding=spec["gray"])
